@@ -269,7 +269,7 @@ func (h *handler) patchRelationTuples(w http.ResponseWriter, r *http.Request, _ 
 		return
 	}
 	for _, d := range deltas {
-		if d.RelationTuple == nil {
+		if d == nil || d.RelationTuple == nil {
 			h.d.Writer().WriteError(w, r, herodot.ErrBadRequest.WithError("relation_tuple is missing"))
 			return
 		}
